@@ -13,38 +13,47 @@ pub fn preprocess(source: &str) -> String {
     remove_oscat_comment(source)
 }
 
-/// Removes the OSCAT ranged comment. This is not valid IEC 61131, but there
+/// Removes the OSCAT ranged comments. This is not valid IEC 61131, but there
 /// are enough of these that it is worthwhile.
+///
+/// A file can have more than one of these comments (one for each element
+/// that the file declares).
 pub fn remove_oscat_comment(source: String) -> String {
-    let len_key = 21; // The length of "(*@KEY@:DESCRIPTION*)"
-    if let Some(start) = source.find("(*@KEY@:DESCRIPTION*)") {
-        if let Some(end) = source.find("(*@KEY@:END_DESCRIPTION*)") {
-            if start < end {
-                let prelude = &source[0..start + len_key];
-                let epilog = &source[end..source.len()];
+    let start_key = "(*@KEY@:DESCRIPTION*)";
+    let end_key = "(*@KEY@:END_DESCRIPTION*)";
 
-                let mut output = String::with_capacity(source.len());
-                output.push_str(prelude);
+    let mut output = String::with_capacity(source.len());
+    let mut rest = source.as_str();
 
-                // Replace the comment internally character-by-character
-                // so that we retain the exact same positions
-                for c in source[start + len_key..end].chars() {
-                    if c == '\n' {
-                        output.push('\n');
-                    } else {
-                        // One blank for each byte: positions are byte offsets
-                        for _ in 0..c.len_utf8() {
-                            output.push(' ');
-                        }
-                    }
+    while let Some(start) = rest.find(start_key) {
+        let text_start = start + start_key.len();
+        let text_end = match rest[text_start..].find(end_key) {
+            Some(length) => text_start + length,
+            // A comment that is not closed is a regular comment
+            None => break,
+        };
+
+        output.push_str(&rest[..text_start]);
+
+        // Replace the comment internally character-by-character
+        // so that we retain the exact same positions
+        for c in rest[text_start..text_end].chars() {
+            if c == '\n' {
+                output.push('\n');
+            } else {
+                // One blank for each byte: positions are byte offsets
+                for _ in 0..c.len_utf8() {
+                    output.push(' ');
                 }
-
-                output.push_str(epilog);
-                return output;
             }
         }
+
+        output.push_str(end_key);
+        rest = &rest[text_end + end_key.len()..];
     }
-    source
+
+    output.push_str(rest);
+    output
 }
 
 #[cfg(test)]
